@@ -196,6 +196,13 @@ Definition string_op_tok (t : token) : bool := is_ty t TEq || is_ty t TNotEq || 
 Definition num_op_tok (t : token) : bool :=
   is_ty t TCmpEq || is_ty t TNotEq || is_ty t TLt || is_ty t TLte || is_ty t TGt || is_ty t TGte.
 
+(** `and` binds tighter than `or` (since the fix of D34): p and (x or y), with the right operand not parenthesised, is (p and x) or y *)
+Definition and_join (p r : pred) : pred :=
+  match r with
+  | PBin x OpOr y => PBin (PBin p OpAnd x) OpOr y
+  | _ => PBin p OpAnd r
+  end.
+
 Fixpoint parse_label_predicate (fuel : nat) : M pred :=
   match fuel with
   | O => fun _ => PFuel
@@ -226,8 +233,8 @@ Fixpoint parse_label_predicate (fuel : nat) : M pred :=
                else fail
              else fail);
     do nt <- next;
-    if is_ty nt TIdent then unread ;; do r <- parse_label_predicate f; ret (PBin p OpAnd r)
-    else if is_ty nt TComma || is_ty nt TAnd then do r <- parse_label_predicate f; ret (PBin p OpAnd r)
+    if is_ty nt TIdent then unread ;; do r <- parse_label_predicate f; ret (and_join p r)
+    else if is_ty nt TComma || is_ty nt TAnd then do r <- parse_label_predicate f; ret (and_join p r)
     else if is_ty nt TOr then do r <- parse_label_predicate f; ret (PBin p OpOr r)
     else if is_ty nt TEOF then ret p
     else unread ;; ret p
